@@ -210,7 +210,10 @@ class PipeHsmsSettings(secsgem.hsms.HsmsSettings):
 
 
 def quiesce(pipe, timeout=10.0, extra_activity=None):
-    """Wait until nothing moves: inbox drained, all non-harness threads parked, counters stable."""
+    """Wait until nothing moves: inbox drained, all non-harness threads parked, counters stable.
+
+    Idleness must persist over several samples spanning >= 40 ms (a thread that was just woken by Event.set still
+    looks parked until the OS schedules it)."""
     def activity():
         return (pipe.activity, pipe.inbox_empty(), extra_activity() if extra_activity else None)
 
@@ -219,7 +222,8 @@ def quiesce(pipe, timeout=10.0, extra_activity=None):
         if not pipe.inbox_empty():
             time.sleep(0.0005)
             continue
-        if stuck.wait_idle(activity, timeout=max(0.01, deadline - time.monotonic())):
-            if pipe.inbox_empty():
-                return True
+        if stuck.wait_idle(activity, timeout=max(0.01, min(0.05, deadline - time.monotonic())), settle=0.002, samples=3):
+            if stuck.wait_idle(activity, timeout=max(0.05, min(0.3, deadline - time.monotonic())), settle=0.008, samples=6):
+                if pipe.inbox_empty():
+                    return True
     return False
